@@ -69,6 +69,16 @@ VARIANTS = [
     V( 'print-after-store', MAIN, "value ))\n super( Attribute_print, self ).__setitem__( key, value )", "value ))\n            super( Attribute_print, self ).__setitem__( key, value )\n            print( self.name )", fires=[ 'W-PRINT' ], why='defect CS' ),
     V( 'string-offset-remainder-only', LOGIX, "assert off == 0 or attribute.parser.tag_type < STRING.tag_type \\\n or attribute.parser.tag_type == STRUCT.tag_type, \\\n", "assert off >= 0, \\\n", fires=[ 'F-FRAG' ], why='defect CT' ),
     V( 'string-offset-refused-by-if', LOGIX, "assert off == 0 or attribute.parser.tag_type < STRING.tag_type \\\n or attribute.parser.tag_type == STRUCT.tag_type, \\\n", "assert not off or attribute.parser.tag_type == STRUCT.tag_type or attribute.parser.tag_type < STRING.tag_type, \\\n", silent=[ 'F-FRAG' ] ),
+    V( 'udp-datagram-cut', NETWORK, "def recvfrom( conn, maxlen=64*1024 ):", "def recvfrom( conn, maxlen=4*1024 ):", fires=[ 'N-RECV' ], why='defect CV' ),
+    V( 'udp-datagram-size-as-constant', NETWORK, "def recvfrom( conn, maxlen=64*1024 ):", "def recvfrom( conn, maxlen=0x10000 ):", silent=[ 'N-RECV' ] ),
+    V( 'udp-client-block-size-default', CLIENT, "rcvd = network.recv( self.conn, timeout=timeout,\n **( dict( maxlen=64*1024 ) if self.udp else {} )) # UDP: whole datagram", "rcvd		= network.recv( self.conn, timeout=timeout )", fires=[ 'N-RECV' ], why='defect CV' ),
+    V( 'udp-client-block-size-keyword', CLIENT, "rcvd = network.recv( self.conn, timeout=timeout,\n **( dict( maxlen=64*1024 ) if self.udp else {} )) # UDP: whole datagram", "rcvd		= network.recv( self.conn, timeout=timeout, maxlen=( 65535 if self.udp else 4096 ))", silent=[ 'N-RECV' ] ),
+    V( 'proxy-none-type-refused', GETATTR, "if typ is None or isinstance( typ, (type_str_base, type) ):", "if isinstance( typ, (type_str_base, type) ):", fires=[ 'K-TARGETS' ], why='defect CW' ),
+    V( 'proxy-list-target-not-completed', GETATTR, "else tuple( a )+(None,)", "else a+(None,)", fires=[ 'K-TARGETS' ], why='defect CW' ),
+    V( 'proxy-target-completed-by-unpacking', GETATTR, "else tuple( a )+(None,)", "else ( a[0], a[1], None )", silent=[ 'K-TARGETS' ] ),
+    V( 'object-generic-request-takes-replies', DEVICE, "elif cls.SV_COD_CTX in data and data.get( 'service' ) and not data.service & 0x80:", "elif cls.SV_COD_CTX in data and data.get( 'service' ):", fires=[ 'L-OBJREPLY' ], why='defect CX' ),
+    V( 'object-reply-data-looked-up-regardless', DEVICE, "if data.status == 0x00 and 'get_attribute_single' in data:", "if data.status == 0x00:", fires=[ 'L-OBJREPLY' ], why='defect CX' ),
+    V( 'gal-reply-without-count', DEVICE, "result += UINT.produce( len( data.get_attribute_list )) # number of attribute responses\n", "", fires=[ 'L-GALREPLY' ], why='defect CY' ),
     V( 'struct-index-not-scaled', AUTO, "beg = self.offset + self.index * siz", "beg			= self.offset + self.index", fires=[ 'T-TYPES' ] ),
     V( 'struct-class-format-compiled', AUTO, "self._struct = struct.Struct( self.struct_format )", "self._struct		= struct.Struct( type( self ).struct_format )", fires=[ 'T-TYPES' ] ),
     V( 'struct-unpack-at-offset', AUTO, "buf = data[ours+self._input][beg:end]\n val = self._struct.unpack_from( buffer=buf )[0]",
